@@ -1,7 +1,11 @@
 """C14 — metadata property values round trip with type, order, unit and uncertainty."""
 from vlib.tok import f64, lst, s as S
 ID = 'C14'
-THEOREMS = []
+THEOREMS = ['Nix.C14.values_roundtrip', 'Nix.C14.replace_changes_count', 'Nix.C14.clear_empty', 'Nix.C14.mixed_type_rejected',
+            'Nix.C14.assign_accepted_iff', 'Nix.C14.rejected_assign_leaves_no_trace', 'Nix.C14.assign_keeps_attributes',
+            'Nix.C14.unit_roundtrip', 'Nix.C14.unit_reread_stable', 'Nix.C14.definition_roundtrip',
+            'Nix.C14.rejected_call_leaves_no_trace', 'Nix.C14.step_frame', 'Nix.C14.reopen_preserves', 'Nix.C14.readonly_changes_nothing',
+            'Nix.C14.step_agree', 'Nix.C14.history_agree', 'Nix.C14.rel_of_agree', 'Nix.C14.history_last_assigned', 'Nix.C14.history_values']
 FLAVOUR = {'quick': 'plain', 'thorough': 'asan'}
 RULE = ('random histories on one section: 1-4 properties created through the three createProperty overloads (type only / value vector / single value) '
         'over the 7 value types; 8-40 ops from {assign a vector of length 0..64, clear (deleteValues / values(none) / empty vector), set / unset unit '
@@ -184,3 +188,6 @@ def nontrivial(case, tags):
     return any(t.startswith('pv_set.ok') for t in tags) and any(t.startswith('pv_get.') and t.endswith('.values') for t in tags)
 def signature(f):
     return '%s:%s:%s' % (f.kind, f.tag().split('.')[0], f.rule())
+
+LEVEL_TEXT = ('Lean 4 theorems about a model of Property / PropertyHDF5 / the createProperty overloads that follows the C++ statement order, for every value and double token type and every history: an accepted assignment reads back exactly (types, order, length incl. 0) with valueCount = length; a later assignment replaces the earlier one entirely; clearing leaves no value and keeps type and attributes; a vector containing a value of another type is refused with the property untouched, at assignment and at creation; unit (deblanked, all-blank unsets), uncertainty and definition read back as last set and are independent of the values; a refused call of any kind leaves every property as it was; calls on one property leave the others alone; reopen changes nothing; and by induction over arbitrary call sequences (creations, assignments, clearings, attribute changes, deletions and re-creations, reopens, refused calls) the decidable relation Rel of Spec/C14.lean holds between every existing property and the history of accepted calls. The same Rel is evaluated on every answer of the library in differential histories over the 7 value types with extremes, NaN payloads, long and UTF-8 strings, vectors of length 0..64, read-only sessions and reopen.')
+LEVEL_NOTE = ('Trusted: Lean kernel; the idealised 1-d dataset and attribute store (H5Dset_extent keeps a prefix and zero-fills, whole-extent write, attribute round trip) validated each run; persistence across close + reopen is checked by the correspondence run only; strings without NUL bytes; names not UUID-shaped; old-format (< 1.1.1) compound values not modelled; the initial content of a property created from a type alone (8 fill values) is compared with the model but not constrained by the property; harness.')
